@@ -183,6 +183,8 @@ def _classes():
             self.closing = False
             self.calls = []          # plaintext carried by each gated send_all call
             self.wire = self.calls   # (snapshot uses len(wire))
+            self.inflight = 0
+            self.overlap = False     # two transport.send_all calls in flight at once
 
         async def _gate(self):
             name = asyncio.current_task().get_name()
@@ -200,7 +202,13 @@ def _classes():
             self.inbox += self.peer.pump()
             if self.gated:
                 self.calls.append(bytes(self.peer.plain_in[before:]))
-                await self._gate()
+                self.inflight += 1
+                if self.inflight > 1:
+                    self.overlap = True
+                try:
+                    await self._gate()
+                finally:
+                    self.inflight -= 1
 
         async def send_eof(self):
             pass
@@ -413,6 +421,8 @@ def execute(kind, progs, actions, epilogue=False):
                     s.act([A_SETTLE])
             wire = list(s.transport.calls) if kind in (KIND_TLS, KIND_TLS_FAIR) else bytes(s.transport.wire)
             snaps = s.snaps
+            if getattr(s.transport, "overlap", False):
+                wire = wire + [b"<overlap>"]
         finally:
             s.finish()
     return snaps, wire
@@ -685,6 +695,9 @@ def oracle(inp):
         return oracle_threads(kind, progs, actions)
     snaps, wire = execute(kind, progs, actions, epilogue=True)
     if isinstance(wire, list):      # TLS: plaintext decrypted by the peer, per transport call
+        if wire and wire[-1] == b"<overlap>":
+            return ("interleaved: two transport.send_all calls of the TLS transport were in flight at once (on a transport "
+                    "that writes partially the ciphertext of one flush is cut by the other)")
         wire = b"".join(wire)
     final = snaps[-1][1] if snaps else [0] * len(progs)
     for t, st in enumerate(final):
@@ -741,7 +754,10 @@ def oracle(inp):
 def oracle_threads(kind, progs, actions):
     """blocking clients: after every send was allowed to finish the peer has received exactly the packets of the started
     threads, each whole and once (TCP: the stream parses into them), and every send_packet returned"""
-    packets, statuses, _log = run_threads(kind, progs, actions, detail=True)
+    try:
+        packets, statuses, _log = run_threads(kind, progs, actions, detail=True)
+    except RuntimeError as exc:
+        return f"interleaved: {exc}"
     started = sorted({a[1] for a in actions if a[0] == A_START})
     want = sorted(b"".join(pkt) for t in started for pkt in progs[t])
     for t in started:
